@@ -278,7 +278,10 @@ int main(int argc, char ** argv)
         double px = q.direction.x() * pmag, py = q.direction.y() * pmag, pz = q.direction.z() * pmag;
         double want = pp[i].get_p();
         double d = std::fabs(px - pp[i].get_px()) + std::fabs(py - pp[i].get_py()) + std::fabs(pz - pp[i].get_pz());
-        if (!(d <= 1e-9 * want + 1e-15) || !(std::fabs(q.total_momentum / CLHEP::MeV - want) <= 1e-12 * want))
+        // Geant4 carries (direction, kinetic energy): T = sqrt(p^2+m^2) - m loses (m+T)/T digits for slow particles, and p rebuilt from T
+        // inherits dp = dT (T+m)/p with dT of a few ulps of (m+T): that is the representation, not the action
+        const double cond = 16 * std::numeric_limits<double>::epsilon() * (m / CLHEP::MeV + q.kinetic_energy / CLHEP::MeV) * (m / CLHEP::MeV + q.kinetic_energy / CLHEP::MeV) / (want > 0 ? want : 1.0);
+        if (!(d <= 1e-9 * want + 1e-15 + 3 * cond) || !(std::fabs(q.total_momentum / CLHEP::MeV - want) <= 1e-12 * want))
           fail("transfer|momentum", lab + fmt(": particle %zu momentum (%.12g,%.12g,%.12g) MeV became (%.12g,%.12g,%.12g) MeV (|p| %.12g vs %.12g)", i, pp[i].get_px(), pp[i].get_py(),
                                               pp[i].get_pz(), px, py, pz, want, q.total_momentum / CLHEP::MeV));
         double t_s = q.time / CLHEP::second;
